@@ -125,7 +125,7 @@ impl<C: Ctxt> Frame<C> {
     pub fn in_future<F>(self, future: F) -> FrameFuture<C, F> {
         FrameFuture {
             frame: self,
-            future,
+            future: mem::ManuallyDrop::new(future),
         }
     }
 
@@ -215,7 +215,19 @@ The result of calling [`Frame::in_future`].
 */
 pub struct FrameFuture<C: Ctxt, F> {
     frame: Frame<C>,
-    future: F,
+    // The future is dropped manually, inside the frame
+    future: mem::ManuallyDrop<F>,
+}
+
+impl<C: Ctxt, F> Drop for FrameFuture<C, F> {
+    fn drop(&mut self) {
+        // Drop the inner future inside the frame. If the future is dropped before it completes
+        // then anything it finishes on drop, like a span, still sees the properties in this frame
+        let __guard = self.frame.enter();
+
+        // SAFETY: The future is dropped in place and is never accessed again
+        unsafe { mem::ManuallyDrop::drop(&mut self.future) }
+    }
 }
 
 impl<C: Ctxt, F: Future> Future for FrameFuture<C, F> {
@@ -229,7 +241,7 @@ impl<C: Ctxt, F: Future> Future for FrameFuture<C, F> {
         let __guard = unpinned.frame.enter();
 
         // SAFETY: `FrameFuture::future` is pinned
-        unsafe { Pin::new_unchecked(&mut unpinned.future) }.poll(cx)
+        unsafe { Pin::new_unchecked(&mut *unpinned.future) }.poll(cx)
     }
 }
 
